@@ -275,6 +275,49 @@ pub fn run_case(t: &[u8]) -> String {
         }
         Err(_) => "R".into(),
     });
+    // the same mutation on a clone of the container view (`as_array()` / `as_object()` of a value that is still raw text):
+    // same result, and the value the view was taken from stays as it was
+    ep!("m.cpush", match sonic_rs::from_slice::<OwnedLazyValue>(t) {
+        Ok(v) => {
+            let before = sonic_rs::to_string(&v).unwrap();
+            let out = if let Some(a) = v.as_array() {
+                let mut a = a.clone();
+                a.push(sonic_rs::to_lazyvalue(&"new").unwrap());
+                Some(sonic_rs::to_string(&OwnedLazyValue::from(a)).unwrap())
+            } else if let Some(o) = v.as_object() {
+                let mut o = o.clone();
+                o.append_pair("new".into(), sonic_rs::to_lazyvalue(&1u32).unwrap());
+                Some(sonic_rs::to_string(&OwnedLazyValue::from(o)).unwrap())
+            } else {
+                None
+            };
+            match out {
+                Some(s) if sonic_rs::to_string(&v).unwrap() == before => hex(s.as_bytes()),
+                Some(_) => "SOURCE-CHANGED!".into(),
+                None => "NA".into(),
+            }
+        }
+        Err(_) => "R".into(),
+    });
+    ep!("m.cmut", match sonic_rs::from_slice::<OwnedLazyValue>(t) {
+        // DerefMut of a cloned view: remove the last member / element
+        Ok(v) => {
+            if let Some(a) = v.as_array() {
+                let mut a = a.clone();
+                let n = a.len();
+                a.pop();
+                format!("{}:{}", n, a.len())
+            } else if let Some(o) = v.as_object() {
+                let mut o = o.clone();
+                let n = o.len();
+                o.pop();
+                format!("{}:{}", n, o.len())
+            } else {
+                "NA".into()
+            }
+        }
+        Err(_) => "R".into(),
+    });
     ep!("m.replace0", match sonic_rs::from_slice::<OwnedLazyValue>(t) {
         Ok(mut v) => {
             // replace the first member (array: index 0, object: first key) through get_mut / pointer_mut
@@ -337,5 +380,127 @@ pub fn gen(seed: u64, thorough: bool) {
             d = gen_doc(&mut r, &cfg);
         }
         out.line(&format!("c13 {}", hex(&d)));
+    }
+}
+
+/// walks a DOM value in the format of `view` / `view_owned`
+fn view_dom(v: &sonic_rs::Value, depth: usize, out: &mut String) {
+    match v.get_type() {
+        JsonType::Null => out.push('n'),
+        JsonType::Boolean => match v.as_bool() {
+            Some(true) => out.push('t'),
+            Some(false) => out.push('f'),
+            None => out.push_str("B?"),
+        },
+        JsonType::Number => num_dump(v, out),
+        JsonType::String => match v.as_str() {
+            Some(s) => out.push_str(&format!("S{}", hex(s.as_bytes()))),
+            None => out.push_str("S?"),
+        },
+        JsonType::Array => {
+            out.push('[');
+            if depth == 0 {
+                out.push_str("..");
+            } else if let Some(a) = v.as_array() {
+                for (i, x) in a.iter().enumerate() {
+                    if i > 0 {
+                        out.push(',');
+                    }
+                    view_dom(x, depth - 1, out);
+                }
+            }
+            out.push(']');
+        }
+        JsonType::Object => {
+            out.push('{');
+            if depth == 0 {
+                out.push_str("..");
+            } else if let Some(o) = v.as_object() {
+                for (i, (k, x)) in o.iter().enumerate() {
+                    if i > 0 {
+                        out.push(',');
+                    }
+                    out.push_str(&format!("S{}:", hex(k.as_bytes())));
+                    view_dom(x, depth - 1, out);
+                }
+            }
+            out.push('}');
+        }
+    }
+}
+
+/// `c13lf <hexdoc>`: the DOM, the lazy and the owned-lazy view of one text, side by side (meant for a build with
+/// the cargo feature `utf8_lossy`, where the DOM of a text with unpaired surrogate escapes exists)
+pub fn run_lf() {
+    let mut out = Out::new();
+    for line in lines_in() {
+        let p: Vec<&str> = line.split(' ').collect();
+        let t = unhex(p.get(1).copied().unwrap_or("-"));
+        let mut f: Vec<String> = Vec::new();
+        let t1 = t.clone();
+        f.push(format!("d={}", guarded(move || match sonic_rs::from_slice::<sonic_rs::Value>(&t1) {
+            Ok(v) => { let mut s = String::new(); view_dom(&v, 6, &mut s); s }
+            Err(_) => "R".into(),
+        })));
+        let t1 = t.clone();
+        f.push(format!("l={}", guarded(move || match sonic_rs::from_slice::<LazyValue>(&t1) {
+            Ok(v) => { let mut s = String::new(); view(&v, 6, &mut s); s }
+            Err(_) => "R".into(),
+        })));
+        let t1 = t.clone();
+        f.push(format!("o={}", guarded(move || match sonic_rs::from_slice::<OwnedLazyValue>(&t1) {
+            Ok(v) => { let mut s = String::new(); view_owned(&v, 6, &mut s); s }
+            Err(_) => "R".into(),
+        })));
+        let t1 = t.clone();
+        f.push(format!("ol={}", guarded(move || match sonic_rs::from_slice::<LazyValue>(&t1) {
+            Ok(v) => { let o = OwnedLazyValue::from(v); let mut s = String::new(); view_owned(&o, 6, &mut s); s }
+            Err(_) => "R".into(),
+        })));
+        f.push(format!("feat={}", cfg!(feature = "utf8_lossy") as u8));
+        out.line(&f.join(" "));
+    }
+}
+
+pub fn gen_lf(seed: u64, thorough: bool) {
+    let mut out = Out::new();
+    let mut r = Rng::new(seed ^ 0x13f);
+    let fixed: &[&[u8]] = &[
+        b"\"\\ud800\"", b"\"\\udc00\"", b"\"x\\ud800y\"", b"\"\\ud800\\u0041\"", b"\"\\ud83d\\ude00\"", b"[\"\\ud800\"]", b"{\"k\":\"x\\ud800y\"}",
+        b"{\"\\udc00\":[1]}", b"{\"k\":\"x\\ud800y\",\"\\udc00\":[1]}", b"[[\"\\udfff\",{\"a\\ud800\":\"\\ud800\\ud800\"}],\"z\"]", b"\"plain\"", b"{\"a\":1}",
+        b"[\"\\ud800\\udc00\",\"\\udc00\\ud800\"]",
+    ];
+    for t in fixed {
+        out.line(&format!("c13lf {}", hex(t)));
+    }
+    // generated documents with unpaired surrogate escapes put into some of their strings and keys
+    let n = if thorough { 4000 } else { 400 };
+    let cfg = GenCfg { max_depth: 4, max_items: 5, ws: true, dup_keys: false, long_strings: true };
+    let lone: [&[u8]; 4] = [b"\\ud800", b"\\uDBFF", b"\\udc00", b"\\uDFFF"];
+    for _ in 0..n {
+        let d = gen_doc(&mut r, &cfg);
+        // insert after opening quotes of strings (a quote preceded by one of `[,:{ ` and not by a backslash)
+        let mut t = Vec::with_capacity(d.len() + 16);
+        let mut in_str = false;
+        let mut i = 0;
+        while i < d.len() {
+            let c = d[i];
+            t.push(c);
+            if in_str {
+                if c == b'\\' && i + 1 < d.len() {
+                    t.push(d[i + 1]);
+                    i += 1;
+                } else if c == b'"' {
+                    in_str = false;
+                }
+            } else if c == b'"' {
+                in_str = true;
+                if r.chance(1, 3) {
+                    t.extend_from_slice(*r.pick(&lone));
+                }
+            }
+            i += 1;
+        }
+        out.line(&format!("c13lf {}", hex(&t)));
     }
 }
